@@ -92,7 +92,7 @@ func checkCompositeLiteral(
 	}
 
 	typeName := named.Obj().Name()
-	pkg := named.Obj().Pkg()
+	pkg := util.DeclaringPackage(named)
 	if pkg == nil {
 		return nil
 	}
@@ -164,7 +164,7 @@ func checkNewCall(
 	}
 
 	typeName := named.Obj().Name()
-	pkg := named.Obj().Pkg()
+	pkg := util.DeclaringPackage(named)
 	if pkg == nil {
 		return nil
 	}
@@ -238,7 +238,7 @@ func checkVarDeclaration(
 			}
 
 			typeName := named.Obj().Name()
-			pkg := named.Obj().Pkg()
+			pkg := util.DeclaringPackage(named)
 			if pkg == nil {
 				continue
 			}
